@@ -118,6 +118,13 @@ claim("C17", "invariant checking over rapid-generated all-flow histories: substr
       "of the account whose stored selector that token hashes to.",
       TRUST)
 
+claim("C19", "property-based testing of the validation rules against a reference policy evaluator (rapid + native fuzz) and of registration requests against a user-table-diff oracle",
+      "(i) random Rules (every minimum 0-4, Min/MaxLength, Required, AllowWhitespace, regex) x strings over letters/digits/symbols/whitespace/non-ASCII/invalid UTF-8: IsValid(s) must equal an independent reading of the policy and Errors(s)==nil iff valid. "
+      "(ii) 1-4 registration requests per generated configuration (form/JSON, e-mail/username, with/without confirm, generated whitelist/preserve lists) with duplicate, missing, extra and hostile fields (confirmed, locked, password_hash, ...), "
+      "policy-violating and 73-byte passwords, and re-registration of existing PIDs. Oracle: invalid or duplicate -> snapshot equal and no session; valid -> exactly one new user whose hash verifies the submitted password, extra fields within the whitelist, "
+      "no privileged field set, nobody else changed, logged in iff confirm is not loaded, otherwise unconfirmed with exactly one mail to it.",
+      TRUST, engine="register+rules")
+
 NOT_YET = "check not built yet in this round (claimed in DESIGN.md; will be claimed once its check is committed)"
 
 def main():
@@ -156,6 +163,7 @@ def main():
             {"name": "table+strings", "path": "/verif/props/c08_test.go", "kind_free_text": "exhaustive finite table crossed with rapid-generated strings", "serves_properties": ["C08"]},
             {"name": "redirect-strings", "path": "/verif/props/c15_test.go", "kind_free_text": "grammar-generated redirect targets through real flows over a loopback socket", "serves_properties": ["C15"]},
             {"name": "paired-differential", "path": "/verif/props/c16_test.go", "kind_free_text": "two worlds from one description, transcript equality", "serves_properties": ["C16"]},
+            {"name": "register+rules", "path": "/verif/props/c19_test.go", "kind_free_text": "rules PBT against a reference evaluator; registration requests against a user-table diff", "serves_properties": ["C19"]},
             {"name": "handler-program", "path": "/verif/props/c11_test.go", "kind_free_text": "rapid-generated handler programs against recording stores", "serves_properties": ["C11"]},
         ],
         "checks": checks,
